@@ -75,6 +75,22 @@ fn apply(st: &mut State, w: u16, id: u16, op: Op) -> Result<(), String> {
         Op::Response(b) => {
             st.pp.set_response(b);
             want_w = if b { w | 0x8000 } else { w & 0x7fff };
+            // the static form of the same setter, on a bare 12-byte header and on a whole packet
+            let mut hdr = [0u8; 12];
+            hdr[0..2].copy_from_slice(&id.to_be_bytes());
+            hdr[2..4].copy_from_slice(&w.to_be_bytes());
+            hdr[4..12].copy_from_slice(&counts);
+            let mut whole: Vec<u8> = hdr.to_vec();
+            whole.extend_from_slice(&st.rest);
+            DNSSector::set_response(&mut hdr, b);
+            DNSSector::set_response(&mut whole, b);
+            let mut exp = [0u8; 12];
+            exp[0..2].copy_from_slice(&id.to_be_bytes());
+            exp[2..4].copy_from_slice(&want_w.to_be_bytes());
+            exp[4..12].copy_from_slice(&counts);
+            if hdr != exp || whole[..12] != exp || whole[12..] != st.rest[..] {
+                return Err(format!("DNSSector::set_response({}) on header word {:#06x}: header {:02x?}, want {:02x?}", b, w, &hdr[..4], &exp[..4]));
+            }
         }
         Op::Tid(t) => {
             st.pp.set_tid(t);
